@@ -32,6 +32,18 @@ PROP = {
         "an arithmetic error (overflow, division by zero, value not fitting the result column) can be raised by at most one clause of a "
         "single-table statement in generated cases: which failing sub-expression is reported, and whether rows that are joined away or cut "
         "off by LIMIT are evaluated, depends on plan and pipelining (SQL leaves evaluation order open)",
+        "integer columns are INT, BIGINT, UINT, BIGUINT; arithmetic follows the promotion table of the evaluator (unsigned (op) unsigned is "
+        "BIGUINT, every other pair BIGINT; which operand is unsigned is read from the static types: columns, unsigned (op) unsigned, and "
+        "COALESCE / NULLIF results, which are cast to their result type - CASE results are kept to signed operands); unary minus on an unsigned "
+        "value is a type error; BIGUINT literals above 2^63 cannot be written (numbers are lexed as f64 and cast to a signed integer); "
+        "FLOAT columns are compare-only like DOUBLE (eighths, exactly representable in f32)",
+        "scalar functions: COALESCE (n-ary; every argument is evaluated; the result is cast to the type of the first typed argument), "
+        "NULLIF, ABS / CEIL / FLOOR / ROUND (one argument; DOUBLE results: of an integer the nearest double, C19's intToFloat; of a "
+        "DOUBLE computed on the bit pattern, ROUND halves away from zero); their results are compared with decimal literals and DOUBLE "
+        "columns, shown and sorted, not computed with.  Outside the modelled grammar: SQRT (floating point), CONCAT() (its NULL behaviour "
+        "is dialect dependent; || is modelled), ROUND with a precision, and CAST - the parser has no CAST syntax (neither CAST(x AS t) "
+        "nor a function form), so the casts a statement can reach are the implicit ones (projection, INSERT, UPDATE, function results), "
+        "which cast_agrees_with_C19 ties to C19's model of try_cast for the integer kinds",
         "x IN (list): the engine evaluates the list before x, the spec x first; generated list elements are columns and literals (they cannot fail)",
         "LIMIT/OFFSET are generated only under an ORDER BY over all output columns (otherwise the answer is not unique); under a partial "
         "ORDER BY the answer must be sorted under the spec comparator and equal as a multiset",
